@@ -677,7 +677,7 @@ func (h *Hist) actMintBad() {
 }
 
 func (h *Hist) actQuoteBad() {
-	switch h.rng.Intn(6) {
+	switch h.rng.Intn(7) {
 	case 0:
 		h.OpMintQuote(mode{}, 10, false, false, false)
 	case 1:
@@ -690,6 +690,14 @@ func (h *Hist) actQuoteBad() {
 		h.OpMeltQuote(mode{}, 5000, nil, 0, true, false, nil)
 	case 5:
 		h.OpMeltQuote(mode{}, 5000, nil, 7000, true, true, nil) // mpp part >= invoice (or mpp disabled)
+	case 6:
+		// an invoice for 2^64-16 (or -1016) msat: as an int64 its amount is negative, rounded up to sat as a uint64 it is 0
+		msat := []uint64{18446744073709551600, 18446744073709550600}[h.rng.Intn(2)]
+		if q := h.OpMeltQuote(mode{}, msat, nil, 0, true, true, nil); q != nil {
+			if sp := h.spendable(); len(sp) > 0 {
+				h.OpMelt(mode{}, q, []inSpec{h.honest(sp[0])}, false)
+			}
+		}
 	}
 }
 
